@@ -564,6 +564,116 @@ theorem C07_keys_of_sender_extra (p : Prefix) (fs : List SubField) (hw : WFSeq (
   rw [hp, h]
   exact ⟨rfl, rfl⟩
 
+/-- `f` is a `SubField::TxPublicKey` -/
+def IsTxPub : SubField → Prop | .txPub _ => True | _ => False
+/-- `f` is a `SubField::AdditionalPublickKey` -/
+def IsAddKeys : SubField → Prop | .addKeys _ => True | _ => False
+
+/-- **`tx_pubkey` is the FIRST `TxPublicKey` sub-field** (characterisation of the `find_map`, for every sub-field list). -/
+theorem C07_tx_pubkey_is_first (fs : List SubField) (k : Bytes) :
+    txPubkey fs = some k ↔ ∃ pre post, fs = pre ++ .txPub k :: post ∧ ∀ f ∈ pre, ¬ IsTxPub f := by
+  induction fs with
+  | nil => simp [txPubkey]
+  | cons f fs ih =>
+    cases f with
+    | txPub k' =>
+      simp only [txPubkey, Option.some.injEq]
+      constructor
+      · rintro rfl; exact ⟨[], fs, rfl, by simp⟩
+      · rintro ⟨pre, post, h, hp⟩
+        cases pre with
+        | nil => simp at h; exact h.1
+        | cons g pre => simp at h; exact absurd (h.1 ▸ trivial) (hp g (by simp))
+    | _ =>
+      simp only [txPubkey, ih]
+      constructor
+      · rintro ⟨pre, post, rfl, hp⟩
+        exact ⟨_ :: pre, post, rfl, by intro f hf; simp at hf; rcases hf with rfl | hf; exact id; exact hp f hf⟩
+      · rintro ⟨pre, post, h, hp⟩
+        cases pre with
+        | nil => simp at h
+        | cons g pre => simp at h; exact ⟨pre, post, h.2, fun f hf => hp f (by simp [hf])⟩
+
+/-- `tx_pubkey` is `None` exactly when no sub-field is a `TxPublicKey` (then the scan is `Err(NoTxPublicKey)`, `C07_errors`). -/
+theorem C07_tx_pubkey_none (fs : List SubField) : txPubkey fs = none ↔ ∀ f ∈ fs, ¬ IsTxPub f := by
+  induction fs with
+  | nil => simp [txPubkey]
+  | cons f fs ih => cases f <;> simp [txPubkey, ih, IsTxPub]
+
+/-- **`tx_additional_pubkeys` is the FIRST `AdditionalPublickKey` sub-field.** -/
+theorem C07_additional_is_first (fs : List SubField) (ks : List Bytes) :
+    txAdditionalPubkeys fs = some ks ↔ ∃ pre post, fs = pre ++ .addKeys ks :: post ∧ ∀ f ∈ pre, ¬ IsAddKeys f := by
+  induction fs with
+  | nil => simp [txAdditionalPubkeys]
+  | cons f fs ih =>
+    cases f with
+    | addKeys k' =>
+      simp only [txAdditionalPubkeys, Option.some.injEq]
+      constructor
+      · rintro rfl; exact ⟨[], fs, rfl, by simp⟩
+      · rintro ⟨pre, post, h, hp⟩
+        cases pre with
+        | nil => simp at h; exact h.1
+        | cons g pre => simp at h; exact absurd (h.1 ▸ trivial) (hp g (by simp))
+    | _ =>
+      simp only [txAdditionalPubkeys, ih]
+      constructor
+      · rintro ⟨pre, post, rfl, hp⟩
+        exact ⟨_ :: pre, post, rfl, by intro f hf; simp at hf; rcases hf with rfl | hf; exact id; exact hp f hf⟩
+      · rintro ⟨pre, post, h, hp⟩
+        cases pre with
+        | nil => simp at h
+        | cons g pre => simp at h; exact ⟨pre, post, h.2, fun f hf => hp f (by simp [hf])⟩
+
+omit [AddCommGroup P] in
+/-- **A second `TxPublicKey` sub-field is ignored.** For the serialization of ANY well-formed sub-field sequence whose first
+`TxPublicKey` sub-field carries `K` — whatever follows it, further `TxPublicKey` sub-fields with other keys included — the
+transaction key the scan uses is `K` (`ExtraField::tx_pubkey` is a `find_map`, transaction.rs:302-308). -/
+theorem C07_later_keys_ignored (p : Prefix) (pre post : List SubField) (K : Bytes)
+    (hw : WFSeq (validKey ops) (pre ++ .txPub K :: post)) (hpre : ∀ f ∈ pre, ¬ IsTxPub f)
+    (hp : p.extra = ((pre ++ .txPub K :: post).map encSub).flatten) :
+    mainKey ops p = some K := by
+  rw [(C07_keys_of_sender_extra p _ hw hp).1]
+  exact (C07_tx_pubkey_is_first _ K).2 ⟨pre, post, rfl, hpre⟩
+
+
+omit [AddCommGroup P] in
+/-- **The scan reads nothing of the prefix but the two key sub-fields and the outputs** (non-interference): two prefixes with the
+same first `TxPublicKey`, the same first `AdditionalPublickKey` list and the same outputs give the same result — `Ok` list or
+error — for every checker and every `RctSigBase`; version, unlock time, inputs, nonces / padding / merge-mining sub-fields and
+later key sub-fields are not looked at. -/
+theorem C07_scan_reads_only_keys_and_outputs (decP : Bytes → Option P) (p p' : Prefix) (ck : Checker P) (base : Option Base)
+    (hm : mainKey ops p = mainKey ops p') (ha : addKeys ops p = addKeys ops p') (ho : p.outs = p'.outs) :
+    checkOutputsWith ops decP p ck base = checkOutputsWith ops decP p' ck base := by
+  rw [checkOutputsWith_eq, checkOutputsWith_eq, hm, ha, ho]
+
+omit [AddCommGroup P] in
+/-- **Sub-fields appended by someone else do not change the scan.** If the sender's extra is the serialization of `fs`, which
+contains a `TxPublicKey` and an `AdditionalPublickKey` sub-field, then appending ANY further sub-fields `more` (further keys
+included; the whole sequence still well-formed) and changing version / unlock time / inputs leaves the scan result unchanged. -/
+theorem C07_appended_fields_ignored (decP : Bytes → Option P) (p p' : Prefix) (ck : Checker P) (base : Option Base)
+    (fs more : List SubField) (K : Bytes) (ks : List Bytes)
+    (hK : txPubkey fs = some K) (hks : txAdditionalPubkeys fs = some ks)
+    (hw : WFSeq (validKey ops) fs) (hw' : WFSeq (validKey ops) (fs ++ more))
+    (hp : p.extra = (fs.map encSub).flatten) (hp' : p'.extra = ((fs ++ more).map encSub).flatten) (ho : p.outs = p'.outs) :
+    checkOutputsWith ops decP p ck base = checkOutputsWith ops decP p' ck base := by
+  obtain ⟨pre, post, rfl, hpre⟩ := (C07_tx_pubkey_is_first fs K).1 hK
+  obtain ⟨pre2, post2, h2, hpre2⟩ := (C07_additional_is_first _ ks).1 hks
+  have k1 := C07_keys_of_sender_extra p _ hw hp
+  have k2 := C07_keys_of_sender_extra p' _ hw' hp'
+  apply C07_scan_reads_only_keys_and_outputs decP p p' ck base _ _ ho
+  · rw [k1.1, k2.1, hK]
+    exact ((C07_tx_pubkey_is_first _ K).2 ⟨pre, post ++ more, by simp, hpre⟩).symm
+  · rw [k1.2, k2.2, hks]
+    have : txAdditionalPubkeys ((pre ++ SubField.txPub K :: post) ++ more) = some ks :=
+      (C07_additional_is_first _ ks).2 ⟨pre2, post2 ++ more, by rw [h2]; simp, hpre2⟩
+    rw [this]
+
+/-- non-vacuity of the premises of `C07_later_keys_ignored` / `C07_appended_fields_ignored` on the sub-field level: the first of
+two `TxPublicKey` sub-fields is the one returned -/
+example : txPubkey [.nonce [1], .txPub [2], .txPub [3]] = some [2] ∧
+    txAdditionalPubkeys [.txPub [2], .addKeys [[4]], .addKeys [[5]]] = some [[4]] := by decide
+
 /-- **End to end from the sender's extra.** The sender writes the extra field `TxPublicKey(K) :: rest` with
 `K = txKey r dest + T` (the published transaction key for the wallet's address at the in-range index `(i,j)`) and the output at
 position `n` as in `C07_sender_recognised`; then in an `Ok` scan position `n` is reported with key `K` and an index with the spend
